@@ -13,7 +13,7 @@ REPO_SRC = repo_src()
 class Contract(object):
     def __init__(self, module, qualname, params, returns=None, requires=(), ensures=(), loops=None, pure=True, modifies=(),
                  theories=('word',), decreases=(), types=None, ghost=None, defaults=None, props=(), symbol_is_regexp=False,
-                 hints=None, bounded=None, note='', variant='', asserts=(), verify=True):
+                 hints=None, bounded=None, note='', variant='', asserts=(), verify=True, pre_return_asserts=()):
         self.module, self.qualname = module, qualname
         self.variant = variant
         self.key = qualname + ('[%s]' % variant if variant else '')
@@ -33,6 +33,7 @@ class Contract(object):
         self.symbol_is_regexp = symbol_is_regexp
         self.hints = hints or {}
         self.asserts = list(asserts)
+        self.pre_return_asserts = list(pre_return_asserts)   # proved (then assumed) before the return expression is evaluated
         self.verify = verify      # False: contract assumed at call sites, the function itself is only checked by its bounded stand-in
         self.is_method = '.' in qualname
         self.note = note
